@@ -12,7 +12,7 @@ Fixpoint qmat_close (atol rtol : Q) (a b : qmat) : bool :=
 Fixpoint qmats_close (atol rtol : Q) (a b : list qmat) : bool :=
   match a, b with [], [] => true | x :: a', y :: b' => qmat_close atol rtol x y && qmats_close atol rtol a' b' | _, _ => false end.
 
-(* square root in Q: integer square root of the argument scaled to ~315 significant bits, i.e. ~157 correct
+(* square root in Q: integer square root of the argument scaled to ~215 significant bits, i.e. ~107 correct
    significant bits of the root (relative accuracy far below the tolerance), whatever the size of the exact rational *)
 Definition qscale (s : Z) (y : Q) : Q :=
   if (0 <=? s)%Z then (y * inject_Z (2 ^ s))%Q else (y / inject_Z (2 ^ (- s)))%Q.
@@ -20,7 +20,7 @@ Definition qsqrt (x : Q) : Q :=
   if Qle_bool x 0%Q then 0%Q
   else
     let e := (Z.log2 (Qnum x) - Z.log2 (Zpos (Qden x)))%Z in
-    let s := (160 - e / 2)%Z in
+    let s := (110 - e / 2)%Z in
     Qred (qscale (- s) (inject_Z (Z.sqrt (Qfloor (qscale (2 * s) x))))).
 Definition qnrm2 (v : list Q) : Q := qsqrt (fold_right (fun x acc => Qred (x * x + acc)%Q) 0%Q v).
 
